@@ -5,8 +5,8 @@ PATCH="$1"; shift
 TIER=quick; TESTS=0; DEMO=""
 while true; do case "$1" in --tests) TESTS=1; shift;; --demo) DEMO="$2"; shift 2;; --tier) TIER="$2"; shift 2;; *) break;; esac; done
 WT=$(mktemp -d /var/tmp/vfmut.XXXXXX)
-git -C /repo worktree add -q --detach "$WT" HEAD || exit 2
-trap 'git -C /repo worktree remove --force "$WT" >/dev/null 2>&1; rm -rf "$WT"' EXIT
+flock /var/tmp/vf_worktree.lock git -C /repo worktree add -q --detach "$WT" HEAD || exit 2
+trap 'flock /var/tmp/vf_worktree.lock git -C /repo worktree remove --force "$WT" >/dev/null 2>&1; rm -rf "$WT"' EXIT
 if [ -n "$DEMO" ]; then
   (cd "$WT" && PYTHONPATH="$WT/src" timeout 120 /venv/bin/python "$DEMO" >/dev/null 2>&1); echo "demo without patch: exit $?"
 fi
